@@ -68,10 +68,10 @@ def run(F, chk):
     stages = stage_bodies(F)
     L1.floor('sort stage functions (anchor: Receiver<DltMessage> param + BinaryHeap of messages)', len(stages), 1)
     for b in stages:
-        res = lin.run_linearity(b, own.OwnSpec(), L1, L2, L7, min_recv=2, min_send=1, min_store=1)
+        res = lin.run_linearity(b, own.OwnSpec(), L1, L2, L7, min_recv=2, min_send=1, min_store=1, F=F)
         for cl in F.closures_of(b.path):
             if any(l['cm'] for l in cl.locals):
-                lin.run_linearity(cl, own.OwnSpec(), L1, L2, L7)
+                lin.run_linearity(cl, own.OwnSpec(), L1, L2, L7, F=F)
         # L5: return states
         ex = res.explorer
         cfg = res.cfg
@@ -197,6 +197,41 @@ def phi_capped(cfg, E, b, v):
     return 'every definition of %s is the reception time or a value guarded <= reception time' % v[1]
 
 
+def subst(e, m):
+    """replace parameter places of a helper by the caller's argument expressions"""
+    if not isinstance(e, tuple):
+        return e
+    if e and e[0] == 'place' and len(e) >= 2 and e[1] in m:
+        base = m[e[1]]
+        if len(e) == 2:
+            return base
+        rest = e[2:]
+        if base[0] == 'ref' and rest and rest[0] == '*':
+            inner = base[1]
+            return (inner + tuple(rest[1:])) if inner[0] in ('place', 'proj') else (('proj', inner) + tuple(rest[1:]))
+        return (base + tuple(rest)) if base[0] in ('place', 'proj') else (('proj', base) + tuple(rest))
+    return tuple(subst(x, m) for x in e)
+
+
+def release_helpers(F, b, cfg, E):
+    """private functions the sorter hands its heap to by `&mut` (the release loop moved into a helper): list of
+    (call block in the sorter, helper body, {helper parameter name: caller's argument expression})"""
+    out = []
+    for blk in b.calls():
+        c = blk.term.callee
+        H = F.get(c.resolved) if c.resolved else F.get(c.path)
+        if H is None or H.kind == 'closure' or H.path == b.path:
+            continue
+        if not any(re.match(r'&mut std::collections::(BinaryHeap|VecDeque)<|&mut std::vec::Vec<', a.ty or '') and 'SortedDltMessage' in (a.ty or '') for a in blk.term.args):
+            continue
+        m = {}
+        for i, a in enumerate(blk.term.args):
+            nm = H.name_of(i + 1) or 'arg%d' % (i + 1)
+            m[nm] = E.operand(a)
+        out.append((blk.i, H, m))
+    return out
+
+
 # ---------------------------------------------------------------------------------------------
 # O3: the release threshold is never below the configured minimum delay
 
@@ -213,10 +248,11 @@ def check_threshold_floor(F, stages, O3):
         E = ExprBuilder(cfg, fold_named=True)
         # the threshold: named local added to the heap key in the drain comparison `Lt(Add(key, T), recv)`
         thr = None
-        for blk in b.blocks:
-            if blk.cleanup or blk.term.k != 'switch':
-                continue
-            c = E.switch_cond(blk)
+        conds = [E.switch_cond(blk) for blk in b.blocks if not blk.cleanup and blk.term.k == 'switch']
+        for (_cb, H, m) in release_helpers(F, b, cfg, E):
+            hE = ExprBuilder(CFG(H), fold_named=True)
+            conds += [subst(hE.switch_cond(blk), m) for blk in H.blocks if not blk.cleanup and blk.term.k == 'switch']
+        for c in conds:
             if isinstance(c, tuple) and c[0] == 'bin' and c[1] in ('Lt', 'Le', 'Gt', 'Ge'):
                 for side in (c[2], c[3]):
                     if isinstance(side, tuple) and side[0] == 'bin' and side[1] == 'Add' and 'calculated_time_us' in show(side):
@@ -313,19 +349,30 @@ def check_release_only_by_age(F, stages, O5):
             continue
         pops = [blk for blk in b.calls() if re.search(r'(BinaryHeap::<T(, A)?>::pop|PeekMut::<.*>::pop|Vec::<T(, A)?>::pop|VecDeque::<T(, A)?>::pop_front)$', blk.term.callee.path) and
                 'SortedDltMessage' in (blk.term.args[0].ty or '')]
-        for blk in pops:
-            if blk.i not in recv_loop:
+        POP = r'(BinaryHeap::<T(, A)?>::pop|PeekMut::<.*>::pop|Vec::<T(, A)?>::pop|VecDeque::<T(, A)?>::pop_front)$'
+        sites = [(b, cfg, E, blk, None) for blk in pops if blk.i in recv_loop]
+        for (cb, H, m) in release_helpers(F, b, cfg, E):
+            if cb not in recv_loop:
                 continue
+            O5.fn(H.path)
+            hcfg = CFG(H)
+            hE = ExprBuilder(hcfg, fold_named=True)
+            for blk in H.calls():
+                if re.search(POP, blk.term.callee.path) and 'SortedDltMessage' in (blk.term.args[0].ty or ''):
+                    sites.append((H, hcfg, hE, blk, m))
+        for (xb, xcfg, xE, blk, m) in sites:
             n += 1
             O5.sites += 1
             ok = None
-            for (c, truth, D) in guards.known(cfg, E, blk.i):
+            for (c, truth, D) in guards.known(xcfg, xE, blk.i):
+                if m is not None:
+                    c = subst(c, m)
                 sc = show(c)
                 if truth is True and isinstance(c, tuple) and c[0] == 'bin' and c[1] in ('Lt', 'Le', 'Gt', 'Ge') and 'calculated_time_us' in sc and 'reception_time_us' in sc and 'Add(' in sc:
                     ok = sc
             if ok:
-                O5.ok(sample={'pop_at': b.loc(blk.term.sp), 'only_under': ok[:90]})
+                O5.ok(sample={'pop_at': xb.loc(blk.term.sp), 'only_under': ok[:90], 'in': xb.path})
             else:
                 O5.violation(('released-without-age-test', b.path), 'the sorter pops a buffered message at %s inside the receive loop without a dominating release comparison (key + threshold < reception time): '
-                             'a message can be emitted before the threshold has passed and a later, older message follows it' % b.loc(blk.term.sp), where=b.loc(blk.term.sp))
+                             'a message can be emitted before the threshold has passed and a later, older message follows it' % xb.loc(blk.term.sp), where=xb.loc(blk.term.sp))
     O5.floor('heap pops inside the receive loop of the sorter', n, 1)
